@@ -397,6 +397,8 @@ def _check_main(ctx, rep: Report):
 def check(ctx, rep):
     from . import metarules, shared
     _check_main(ctx, rep)
+    from . import metarules, r5rules
+    r5rules.property_rules(ctx, rep, "C12.PROP", ("order", "key", "name"))
     shared.own_namespace_lookups(ctx, rep, "C12.NS")
     shared.unused_params(ctx, rep, "C12.PARAM", ["spec_classes.types.spec_property"])
     metarules.preparer_registration(ctx, rep, "C12.PREP")
